@@ -9,7 +9,7 @@ import itertools
 import os
 import re
 
-from mc import world, procseam, cli
+from mc import world, procseam, cli, kf
 from mc.ref import tree as T
 from mc.result import Result
 
@@ -130,6 +130,8 @@ def cases(tier):
             yield ('Names', kind, how)
     for i in range(len(PBYTES_INSTR)):
         yield ('Pbytes', i)
+    for i in range(len(PESCAPE)):
+        yield ('Pescape', i)
     nt = len(trees(tier))
     for ti in range(nt):
         for oi in range(len(OPTIONS)):
@@ -148,6 +150,8 @@ def run(case) -> Result:
         return _names(res, case)
     if case[0] == 'Pbytes':
         return _pbytes(res, case)
+    if case[0] == 'Pescape':
+        return _pescape(res, case)
     return _match(res, case)
 
 
@@ -309,6 +313,50 @@ def _pbytes(res, case):
     res.outcomes[('Pbytes', ident)] += 1
     if errs:
         res.violation(case, errs, {'file': text})
+    return res
+
+
+# the populated directory d already holds a symbolic link `lnk` to a directory OUTSIDE d; entries whose names pass through the link
+# (no `..`, not absolute: the name check accepts them) must not create anything outside d
+PESCAPE = ["dir d += {\n file lnk/escaped.txt = 'x'\n}", 'dir d += {\n dir lnk/newdir\n}', "dir d += {\n file lnk/sub/deep.txt = 'x'\n}",
+           "dir d += {\n dir lnk = {\n  file inner.txt = 'x'\n }\n}", 'dir d += dir-contents-of -rel-home esrc']
+
+
+def _pescape(res, case):
+    instr = PESCAPE[case[1]]
+    w = world.get()
+    w.reset()
+    seam = procseam.SEAM
+    seam.reset()
+    seam.default = {'exit': 0}
+    w.write('esrc/lnk/from-src.txt', 'x')
+
+    def hook(rec):
+        if rec['name'] == 'mklinks':
+            os.symlink('../outside', os.path.join(rec['cwd'], 'd', 'lnk'))
+
+    seam.on_call = hook
+    text = "[setup]\ndir outside\ndir d = {\n file a = 'pre-a'\n}\nrun % mklinks\n" + instr + '\n[act]\n'
+    o = cli.run_case(text, args=['--keep'])
+    ident = o.err.split('\n')[0]
+    sds = o.out.strip()
+    res.n += 1
+    res.nontrivial += 1
+    errs = []
+    created = None
+    if ident not in ('PASS', 'HARD_ERROR'):
+        errs.append('expected PASS or HARD_ERROR, got %s / %s' % (ident, ' / '.join(cli.stderr_lines(o.err)[-3:])[:300]))
+    if os.path.isdir(sds):
+        created = sorted(disk_tree(os.path.join(sds, 'act', 'outside')))
+        if created:
+            errs.append('`%s` (d/lnk is a symbolic link to ../outside): created outside the populated directory: act/outside/%s' % (instr.replace('\n', ' '), created))
+    res.outcomes[('Pescape', ident)] += 1
+    if errs:
+        hit = kf.classify_c15(instr, ident, created, errs)
+        if hit:
+            res.kf[hit] += 1
+        else:
+            res.violation(case, errs, {'file': text})
     return res
 
 
